@@ -45,7 +45,7 @@ func c12Corpus() []cval {
 	add(cval{name: "false", kind: "bool", lit: "false", use: "lit"})
 	add(cval{name: "true.var", kind: "bool", v: true, use: "var"})
 	add(cval{name: "false.var", kind: "bool", v: false, use: "var"})
-	nums := []string{"0", "1", "-1", "2", "10", "2147483647", "-2147483648", "9007199254740992", "9007199254740993", "9223372036854775807", "-9223372036854775807", "9223372036854775806",
+	nums := []string{"0", "1", "-1", "2", "10", "-2", "-3", "-5", "-10", "-12", "-21", "2147483647", "-2147483648", "9007199254740992", "9007199254740993", "9223372036854775807", "-9223372036854775807", "9223372036854775806",
 		"0.5", "-0.5", "1.5", "1.0", "-0.0", "1e2", "9007199254740992.0", "9.223372036854775807e18", "1e308", "-1e308", "5e-324", "0.1", "0.30000000000000004", "1e19", "1e-7", "0.3", "1.0000000000000002", "1.0000000000000007", "1.0000000000000013", "9007199254740994.0"}
 	for _, t := range nums {
 		if !strings.ContainsAny(t, ".eE") {
